@@ -166,6 +166,12 @@ PROPS["C32"] = {
         H(_P, "c32_from_relay_payload_uses_given_key_parse_fails", "from_relay_payload(K,x) verifies under K and embeds K; to_relay_payload inverts (payload oracle says no => always rejected)", "74-byte payloads", timeout=900, stub_env=True, stubs=["decompress", "verify", "Packet::parse", "format"]),
         H(_P, "c32_size_limits", "too short / too long inputs rejected before any oracle is consulted", "lengths 0,1,96,103,1105"),
         H(_P, "c32_unchecked_is_safe_to_inspect", "values from from_bytes_unchecked / from_parts_unchecked can be inspected without panic", "106-byte inputs, all bytes symbolic", timeout=600, stub_env=True, stubs=["decompress", "Packet::parse"]),
+        H(_P, "c32_parts_unchecked_k0_s0", "from_parts_unchecked with a 0-byte key and 0-byte signature part: whatever is returned Ok is a full header and can be inspected without panic", "12-byte payload; signature/timestamp/payload symbolic, key part zeros", timeout=600, stub_env=True, stubs=["decompress", "Packet::parse"]),
+        H(_P, "c32_parts_unchecked_k32_s0", "from_parts_unchecked with a 32-byte key and 0-byte signature part: whatever is returned Ok is a full header and can be inspected without panic", "12-byte payload; signature/timestamp/payload symbolic, key part zeros", timeout=600, stub_env=True, stubs=["decompress", "Packet::parse"]),
+        H(_P, "c32_parts_unchecked_k32_s63", "from_parts_unchecked with a 32-byte key and 63-byte signature part: whatever is returned Ok is a full header and can be inspected without panic", "12-byte payload; signature/timestamp/payload symbolic, key part zeros", timeout=600, stub_env=True, stubs=["decompress", "Packet::parse"]),
+        H(_P, "c32_parts_unchecked_k31_s64", "from_parts_unchecked with a 31-byte key and 64-byte signature part: whatever is returned Ok is a full header and can be inspected without panic", "12-byte payload; signature/timestamp/payload symbolic, key part zeros", timeout=600, stub_env=True, stubs=["decompress", "Packet::parse"]),
+        H(_P, "c32_parts_unchecked_k32_s52", "from_parts_unchecked with a 32-byte key and 52-byte signature part: whatever is returned Ok is a full header and can be inspected without panic", "12-byte payload; signature/timestamp/payload symbolic, key part zeros", timeout=600, stub_env=True, stubs=["decompress", "Packet::parse"]),
+        H(_P, "c32_parts_unchecked_exact_and_long_parts", "same for exact and over-long parts", "(32,64),(33,64),(32,65),(31,65),(33,63)", timeout=600),
         W(_P, "c32_witness", timeout=600),
     ],
 }
